@@ -418,11 +418,16 @@ def correspond(ctx, res):
             if first is None:
                 first = {"what": "get_cg_matrix entry", "decay": decs, "(l,s,lambda_b,lambda_c)": key, "impl": val, "model": mv}
     pos += len(cg_lines)
+    nskip_kin = 0
     for (spec, i, resn, mRd, cosb, q2A, q2R), o in zip(kin_vals, out[pos:pos + len(kin_lines)]):
         v = [C.h2f(x) for x in o.split()]
         S = v[0] ** 2
         cond = max(1.0, S / max(abs(v[6]), 1e-300), S / max(abs(v[7]), 1e-300))
-        if cond > COND_MAX:
+        # a (numerically) massless resonance candidate (two collinear massless finals) has no rest frame:
+        # |q|2 of the resonance is inf/nan and cos(theta) is 0/0 in both evaluations
+        vals = [v[1], v[5], v[6], v[7], mRd, cosb, q2A, q2R]
+        if cond > COND_MAX or not all(math.isfinite(x) for x in vals) or not (mRd ** 2 > S / COND_MAX):
+            nskip_kin += 1
             continue
         errs = [abs(v[1] ** 2 - mRd ** 2) / S, abs(v[5] - cosb), abs(v[6] - q2A) / S, abs(v[7] - q2R) / S]
         e = max(errs) / cond ** 0.5
@@ -450,6 +455,7 @@ def correspond(ctx, res):
         "spins_seen": sorted(jset),
         "configs_with_interfering_different_J": int(multi),
         "ill_conditioned_skipped": int(nskip),
+        "kinematics_rows_skipped_ill_conditioned": int(nskip_kin),
         "worst_rel_err_density": worst["density"],
         "worst_rel_err_complex_amplitude": worst["amplitude"],
         "events_with_equal_density_but_different_complex_amplitude": int(phase_notes),
